@@ -56,6 +56,9 @@ P = {
  "C12": ("exploration", "rapid PBT: single-line faults (illegal characters incl. multi-byte, stray tokens, out-of-context keywords, invalid assignment targets, 23 runtime kits) inserted at recorded byte spans into multi-line programs with blank lines, comments, CRLF, tabs and non-ASCII text; validity predicate over the reported Line / Col / SrcLine",
    "15k (400k thorough) programs of up to 60 lines; the reported line must be the fault's line, SrcLine exactly that line of the text, and the byte column inside the inserted construct (exactly on a single-byte illegal character); every error also satisfies Line >= 1 and SrcLine == line Line; 150 (3000) cases compare the binary's three stderr lines. Exploration.",
    "Trusted: the renderer's recorded token offsets. For a multi-byte illegal character any byte of it is accepted as the column.", "5/C12"),
+ "C20": ("exploration", "boundary-value enumeration: ladders of magnitudes around each limit, every rung run through the binary in an isolated subprocess (rusage, memory cap), validity predicate over (exit status, stdout, stderr, peak RSS), monotonicity along each ladder; rapid PBT of random points around the switch points in-process",
+   "About 460 rungs in the quick tier (more shapes and depths in thorough): 10 recursion shapes x depths 1...10^5, 6 array-index shapes x indices 0.5...10^18 and 1e300, printf widths +-1...10^12 x 3 directives, input nesting 100...10^5 (10^6) x 3 shapes; plus 300 (20k) random in-process points that must agree with the switch point found by bisection. Exploration (boundary-value enumeration).",
+   "The thresholds asserted are the statement's (depth 1000 works / 10^4 refused; a million elements work / index 2*10^6 refused; width 65536 works / 65537 refused; nesting 1000 works / 10^5 refused), not the code's constants; between them only monotonicity is asserted. A 90 s watchdog kill is inconclusive.", "5/C20"),
  "C05": ("exploration", "exhaustive small-scope enumeration + rapid PBT, differential against a reference model of the section-3 operator tables",
    "Every operator x every ordered pair of 40 representative operands x 3-4 supply modes is enumerated completely (about 66k programs), then 20k (quick) / 150k (thorough) random operand pairs; each result is compared in kind, value and error class with the section-3 tables. Exploration, exhaustive over the stated representative grid: it decides the table on the grid, not on every double.",
    "Trusted: refjq's transcription of DESIGN.md section 3; Go's regexp for RE2; exotic numeric strings, non-finite results and |x| >= 2^53 for % are unspecified and discarded (counted).", "5/C05, 3"),
